@@ -1,6 +1,7 @@
 import JSight.Basic
 /-!
-Model of `core/description.go description` (after F19) and `catalog/annotation.go Annotation`.
+Model of `core/description.go description` (after F19 and F27: a whitespace-only line does not limit
+the common indentation) and `catalog/annotation.go Annotation`.
 Byte level.  `bytes.TrimSpace` and regexp `\s` are modelled on ASCII + the multi-byte Unicode spaces
 are *not* modelled (inputs with bytes ≥ 0x80 are compared by correspondence only; see DESIGN §4).
 -/
@@ -87,7 +88,7 @@ def longestWhitespacePrefix (lines : List Bytes) : Bytes :=
   | l0 :: rest =>
     let p0 := firstPrefix l0
     if p0.isEmpty then []
-    else rest.foldl (fun pre l => if pre.isEmpty then [] else if l.isEmpty then pre else shrinkTo l pre) p0
+    else rest.foldl (fun pre l => if pre.isEmpty then [] else if l.all isBlankHT then pre else shrinkTo l pre) p0
 
 def trimPrefix (pre l : Bytes) : Bytes := if pre.isPrefixOf l then l.drop pre.length else l
 
